@@ -749,6 +749,9 @@ fn run_worker(id: &str, tier: Tier, seed: u64, start: u64, end: u64, stride: u64
     let _ = mon.join();
     out.status_ok = st.success();
     out.stderr = errt.join().unwrap_or_default();
+    if std::env::var("DESKSET_DEBUG").is_ok() && !out.stderr.is_empty() {
+        eprint!("{}", out.stderr);
+    }
     out
 }
 
